@@ -19,7 +19,58 @@ var userTagNames = []string{"UNIQUE_IDENTIFIER", "COMMENT", "DESCRIPTION", "CRYP
 
 var userLeafTypes = []reflect.Type{tInt32, tInt64, tEnum, tBool, tString, tBytes, tTime, tDuration, reflect.TypeOf((*interface{})(nil)).Elem()}
 
+// user-defined types of the core kinds (and some kinds the library does not support): whatever the library makes of
+// them - an "unsupported type" error today - it must not panic, neither in Encode nor in Decode
+type hInt32 int32
+type hInt64 int64
+type hUint32 uint32
+type hBool bool
+type hString string
+type hBytes []byte
+type hFloat float64
+type hMap map[string]int32
+
+var userNamedLeafTypes = []reflect.Type{reflect.TypeOf(hInt32(0)), reflect.TypeOf(hInt64(0)), reflect.TypeOf(hUint32(0)), reflect.TypeOf(hBool(false)),
+	reflect.TypeOf(hString("")), reflect.TypeOf(hBytes(nil)), reflect.TypeOf(hFloat(0)), reflect.TypeOf(hMap(nil)), reflect.TypeOf(int(0)), reflect.TypeOf(uint8(0))}
+
+// twinLeaf: the core type whose wire form a user-defined type of that kind would have
+var twinLeaf = map[reflect.Type]reflect.Type{reflect.TypeOf(hInt32(0)): tInt32, reflect.TypeOf(hInt64(0)): tInt64, reflect.TypeOf(hUint32(0)): tEnum,
+	reflect.TypeOf(hBool(false)): tBool, reflect.TypeOf(hString("")): tString, reflect.TypeOf(hBytes(nil)): tBytes, reflect.TypeOf(hFloat(0)): tInt64,
+	reflect.TypeOf(hMap(nil)): tString, reflect.TypeOf(int(0)): tInt32, reflect.TypeOf(uint8(0)): tInt32}
+
+// twinOf: the same structure type with every user-defined leaf replaced by its core twin (the type itself if there is none)
+func twinOf(t reflect.Type) reflect.Type {
+	if tw, ok := twinLeaf[t]; ok {
+		return tw
+	}
+	switch {
+	case t == tTime || t == tBytes || t == tTag:
+		return t
+	case t.Kind() == reflect.Slice:
+		if e := twinOf(t.Elem()); e != t.Elem() {
+			return reflect.SliceOf(e)
+		}
+	case t.Kind() == reflect.Struct:
+		changed := false
+		var fields []reflect.StructField
+		for i := 0; i < t.NumField(); i++ {
+			f := t.Field(i)
+			if ft := twinOf(f.Type); ft != f.Type {
+				f.Type = ft
+				changed = true
+			}
+			fields = append(fields, reflect.StructField{Name: f.Name, Type: f.Type, Tag: f.Tag})
+		}
+		if changed {
+			return reflect.StructOf(fields)
+		}
+	}
+	return t
+}
+
 type userSchemaGen struct {
+	named      bool // user-defined leaf types allowed (types built meanwhile are kept apart: builtNamed)
+	builtNamed []reflect.Type
 	r     *rand.Rand
 	built []reflect.Type
 }
@@ -51,6 +102,11 @@ func (g *userSchemaGen) buildType(depth int) reflect.Type {
 	for i := 0; i < n; i++ {
 		var ft reflect.Type
 		switch k := g.r.Intn(10); {
+		case g.named && g.r.Intn(5) == 0:
+			ft = userNamedLeafTypes[g.r.Intn(len(userNamedLeafTypes))]
+			if g.r.Intn(2) == 0 {
+				ft = reflect.SliceOf(ft)
+			}
 		case k < 6 || depth >= 2:
 			ft = userLeafTypes[g.r.Intn(len(userLeafTypes))]
 		case k < 8:
@@ -73,7 +129,11 @@ func (g *userSchemaGen) buildType(depth int) reflect.Type {
 		fields = append(fields, reflect.StructField{Name: fmt.Sprintf("F%d", i), Type: ft, Tag: reflect.StructTag(ann)})
 	}
 	t := reflect.StructOf(fields)
-	g.built = append(g.built, t)
+	if g.named {
+		g.builtNamed = append(g.builtNamed, t)
+	} else {
+		g.built = append(g.built, t)
+	}
 	return t
 }
 
@@ -94,8 +154,12 @@ func (g *userSchemaGen) dynValue() reflect.Value {
 	case 6:
 		return reflect.ValueOf(time.Unix(int64(g.r.Int31()), 0))
 	case 7, 8:
-		if len(g.built) > 0 {
-			t := g.built[g.r.Intn(len(g.built))]
+		pool := g.built
+		if g.named {
+			pool = append(append([]reflect.Type(nil), g.built...), g.builtNamed...)
+		}
+		if len(pool) > 0 {
+			t := pool[g.r.Intn(len(pool))]
 			v := g.value(t, 2)
 			if g.r.Intn(2) == 0 {
 				p := reflect.New(t)
@@ -138,6 +202,24 @@ func (g *userSchemaGen) value(t reflect.Type, depth int) reflect.Value {
 			v.Set(reflect.ValueOf(time.Unix(int64(g.r.Int31()), 0)))
 		}
 	case t == tTag:
+	case t.Kind() == reflect.Int32 || t.Kind() == reflect.Int64 || t.Kind() == reflect.Int:
+		v.SetInt(int64(g.r.Intn(5)))
+	case t.Kind() == reflect.Uint32 || t.Kind() == reflect.Uint8:
+		v.SetUint(uint64(g.r.Intn(5)))
+	case t.Kind() == reflect.Bool:
+		v.SetBool(g.r.Intn(2) == 0)
+	case t.Kind() == reflect.String:
+		v.SetString(string(g.rb()))
+	case t.Kind() == reflect.Float64:
+		v.SetFloat(float64(g.r.Intn(3)))
+	case t.Kind() == reflect.Map:
+		if g.r.Intn(2) == 0 {
+			v.Set(reflect.MakeMap(t))
+		}
+	case t.Kind() == reflect.Slice && t.Elem().Kind() == reflect.Uint8:
+		if g.r.Intn(3) != 0 {
+			v.SetBytes(g.rb())
+		}
 	case t.Kind() == reflect.Interface:
 		if g.r.Intn(5) != 0 {
 			v.Set(g.dynValue())
@@ -224,7 +306,30 @@ func userSchemas(r *rand.Rand, rep *Report, count int) {
 		rep.Violations = append(rep.Violations, m)
 	}
 	for i := 0; i < count; i++ {
+		g.named = i%3 == 2
 		t := g.buildType(0)
+		if tw := twinOf(t); tw != t {
+			// bytes a structure of the twin type (core types in place of the user-defined ones) encodes to, decoded into the
+			// type with the user-defined leaves: an error ("unsupported type") or a value, never a panic
+			for k := 0; k < 4; k++ {
+				var buf bytes.Buffer
+				if err := kmip.NewEncoder(&buf).Encode(g.value(tw, 0).Interface()); err != nil || buf.Len() == 0 {
+					continue
+				}
+				pv := reflect.New(t)
+				rep.Evaluations++
+				rep.Distribution["user-schema:decode-into-named-kinds"]++
+				func() {
+					defer func() {
+						if p := recover(); p != nil {
+							add("user-schema", "Decode panicked on a target structure with fields of user-defined types (bytes: the same structure with core types)", t, pv.Elem(),
+								map[string]interface{}{"panic": firstLine(fmt.Sprint(p)), "bytes": firstN(hexBytes(buf.Bytes()), 1200)})
+						}
+					}()
+					kmip.NewDecoder(bytes.NewReader(buf.Bytes())).Decode(pv.Interface())
+				}()
+			}
+		}
 		for k := 0; k < 4; k++ {
 			v := g.value(t, 0)
 			var buf bytes.Buffer
@@ -254,8 +359,10 @@ func userSchemas(r *rand.Rand, rep *Report, count int) {
 			if err != nil && len(out) != 0 {
 				add("user-schema", "a failed Encode wrote bytes", t, v, map[string]interface{}{"error": err.Error(), "written": len(out)})
 			}
+			// (the independent serialiser knows the core types only: for a type with user-defined or unsupported leaves the
+			// library may reject the whole type, wherever the leaf sits - only "no panic, nothing written" is demanded there)
 			want, ok := indepOpts{}.indepTop(v.Interface())
-			if ok && (err != nil || !bytes.Equal(out, want)) {
+			if ok && !g.named && (err != nil || !bytes.Equal(out, want)) {
 				add("user-schema-bytes", "Encode of a value of a user-defined structure type differs from the independent TTLV serialisation", t, v,
 					map[string]interface{}{"error": fmt.Sprint(err), "got": firstN(hexBytes(out), 1200), "want": firstN(hexBytes(want), 1200)})
 				continue
